@@ -616,6 +616,10 @@ class Intrinsics:
                 ln = z3.Length(seq.t)
                 l, h = self.slice_bounds(lo, hi, ln)
                 return SSeq(z3.SubSeq(seq.t, l, z3.If(h - l > 0, h - l, 0)), seq.elem)
+            if isinstance(obj, range):
+                # a slice of a range is a range (not a list): list(..) of it is a list of ints
+                self.use("range[a:b] with symbolic bounds: a range object (opaque), whose list() is a list of ints")
+                return Tagged("rangeslice", obj)
             raise Unsupported(f"slice of {obj!r}")
         if isinstance(obj, (SStr,)) or (isinstance(obj, str) and not ex.is_concrete(key)):
             t = ex.to_str_term(obj)
@@ -1155,8 +1159,12 @@ class Intrinsics:
                 return isinstance(rep, pt)
             if is_tagged(v, "gen", "genfunc"):
                 return issubclass(collections.abc.Iterator, pt) or pt in (collections.abc.Iterable,)
+            if is_tagged(v, "rangeslice"):
+                return isinstance(range(0), pt)
             if isinstance(v, (HList, HJoin)):
                 return isinstance([], pt)
+            if isinstance(v, SSeq) and v.elem != "char":
+                return isinstance([], pt)       # a slice of a list is a list
             if isinstance(v, HDict):
                 return isinstance({}, pt)
             if isinstance(v, HObj):
